@@ -12,7 +12,23 @@ RULE = ('split with predicates producing ints, big ints, strings and tuples buil
 ORACLE_DOC = ('on the real boundary traces around every split: per parent key the inner lifetimes are exactly the maximal runs '
               'of equal predicate value (compared with !=), contiguous, in order, all completed in order; nothing for an empty key')
 KNOWN_MATCHERS = {}
-_oracle = make_oracle(('split',))
+_site_oracle = make_oracle(('split',))
+
+
+def _oracle(case, r):
+    v = _site_oracle(case, r)
+    if v:
+        return v
+    # "the last segment is closed when the key completes": the segment's results leave split while the parent key is live, so on
+    # every boundary of the pipeline the protocol holds (a result emitted after the parent's completion is an item of a dead key)
+    if case['kind'] == 'mux' and not r.get('raised') and not muxprop.has_fatal(r['chunks']):
+        for lab, tr in sorted((r.get('bounds') or {}).items()):
+            if any(e[0] in ('e', 'x') for e in tr):
+                continue
+            w = muxprop.wf_monitor(tr)
+            if w:
+                return 'at the boundary %s of %s: %s' % (lab, muxprop.json.dumps(case['term'])[:200], w)
+    return None
 
 PREDS = [['floordiv', 3], ['mod', 2], ['key_of'], ['str_of'], ['big_of'], ['is_even'], ['const', 7], ['id'], ['const', None],
          ['none_if_mod', 2, 0]]
@@ -22,6 +38,9 @@ def _cases(tier, rng):
     yield {'kind': 'mux', 'term': [['split', ['floordiv', 3], [['to_list']]]], 'items': [0, 1, 2, 3, 4, 5, 6]}
     yield {'kind': 'mux', 'term': [['split', ['big_of'], [['count', True]]]], 'items': [5, 5, 5, 7, 7, 5]}
     yield {'kind': 'mux', 'term': [['split', ['key_of'], [['to_list']]]], 'items': []}
+    # a stateful operator after split inside the same parent: it must see the result of the last segment before the parent completes
+    yield {'kind': 'mux', 'term': [['split', ['floordiv', 3], [['to_list']]], ['count', True]], 'items': [0, 1, 2, 3, 4, 5, 6]}
+    yield {'kind': 'mux', 'term': [['group_by', ['mod', 2], [['split', ['floordiv', 3], [['to_list']]], ['to_list']]]], 'items': [0, 1, 2, 3, 4, 5, 6]}
     yield {'kind': 'mux', 'term': [['roll', 3, 3, [['split', ['const', None], [['count', True]]]]]], 'items': [1, 2, 3, 4, 5, 6, 7]}
     # predicate values that are not equal to themselves (one shared NaN object): the property says "differs (by !=)".
     # Outside the model's value domain (decidable equality): judged by the oracle on the real code only.
